@@ -98,15 +98,21 @@ Definition lenZ {A} (l : list A) : Z := Z.of_nat (length l).
    Used by split, collect, trim and remove: a NEW context with a flat page tree is built; for every
    requested page number the page dict is copied with
      d["Resources"] = inherited resources, d["MediaBox"] = inhPAttrs.MediaBox,
-     if inhPAttrs.Rotate%360 > 0 { d["Rotate"] = inhPAttrs.Rotate }
-   (an inherited CropBox is NOT copied).  The new root is created by addPageTreeWithoutPage with
-   MediaBox A4 and no other attributes. *)
+     if inhPAttrs.CropBox != nil { d["CropBox"] = inhPAttrs.CropBox }
+     if inhPAttrs.Rotate%360 != 0 { d["Rotate"] = inhPAttrs.Rotate }
+   The new root is created by addPageTreeWithoutPage with MediaBox A4 and no other attributes. *)
 Definition xpage (r : rpage) : pageD :=
   let (p, a) := r in
   mkPage (pg_id p)
-    (mkAttrs (if 0 <? Z.rem (rot_of a) 360 then Some (rot_of a) else a_rot (pg_attrs p))
-             (a_media a) (a_crop (pg_attrs p)) true)
+    (mkAttrs (if Z.rem (rot_of a) 360 =? 0 then a_rot (pg_attrs p) else Some (rot_of a))
+             (a_media a)
+             (match a_crop a with Some c => Some c | None => a_crop (pg_attrs p) end)
+             true)
     (pg_trim p) (pg_bleed p) (pg_art p).
+
+(* observable page up to the representation of the rotation: /Rotate is taken modulo 360 *)
+Definition norm_view (v : vpage) : vpage :=
+  mkV (v_id v) (v_rot v mod 360) (v_media v) (v_crop v) (v_trim v) (v_bleed v) (v_art v).
 
 Definition a4 : rect := (0, 0, 595, 842).
 Definition new_root_attrs : attrs := mkAttrs None (Some a4) None false.
